@@ -122,7 +122,7 @@ func runTransfer(raw json.RawMessage) (res *Result, err error) {
 		}()
 		select {
 		case <-done:
-		case <-time.After(2 * time.Second):
+		case <-time.After(10 * time.Second):
 			same = false
 			panicked = true // reported as "did not return normally"
 		}
